@@ -294,6 +294,20 @@ func c03entry(r *core.Run, ti *terminfo.Terminfo, ei int) {
 			r.Case(ti.Name + "|alt|" + s)
 		}
 	}
+	// --- the same sequences under every combination of application modes ---
+	for ms := 1; ms < 8; ms++ {
+		for _, sq := range seqs {
+			d.modeSet(0)
+			base, _, _ := d.whole([]byte(sq))
+			d.modeSet(ms)
+			got, left, pan := d.whole([]byte(sq))
+			if pan != nil || left != 0 || !evsEq(got, base) {
+				fail("mode-dependent:"+keyClass(sq, desc[sq]), fmt.Sprintf("sequence %q decodes to %s with no application mode enabled but to %s (leftover %d, panic %v) under mode set %d (mouse/paste/focus)", sq, evsStr(base), evsStr(got), left, pan, ms), sq)
+				break
+			}
+		}
+	}
+	d.modeSet(0)
 	// --- control bytes ---
 	for c := 0; c < 32; c++ {
 		s := string([]byte{byte(c)})
